@@ -1,4 +1,5 @@
 import Irismod.Props.C02
+import Irismod.Proofs.CoinswapMonitor
 open Irismod Irismod.Sdk Irismod.Coinswap Irismod.Spec.C02 Irismod.Props.C02
 #print axioms swap_single_exact
 #print axioms swap_double_ledger
@@ -12,6 +13,7 @@ open Irismod Irismod.Sdk Irismod.Coinswap Irismod.Spec.C02 Irismod.Props.C02
 #print axioms supply_frame
 #print axioms rejected_unchanged
 #print axioms Irismod.Proofs.Coinswap.inTime_of_not_expired
+#print axioms Irismod.Proofs.CoinswapMonitor.c02_monitor_sound
 
 -- non-vacuity: on the witness state a single-hop swap to another recipient, a routed swap to oneself and
 -- a routed swap to another recipient are all accepted and the executable ledger of the property holds for all
